@@ -22,7 +22,7 @@ from common import spec, cfgpath
 
 ACCEPT = {'absent': None, 'json': 'application/json', 'html': 'text/html', 'htmlq': 'text/html;q=0.9, application/json;q=0.5',
           'star': '*/*', 'xml': 'application/xml'}
-NATIVE = ('FlatMap', 'SeqScalars', 'SeqFlatMaps', 'SeqFlatSeqs', 'Nested', 'EmptySeq', 'EmptyMap', 'Tuple')
+NATIVE = ('FlatMap', 'SeqScalars', 'SeqFlatMaps', 'SeqFlatSeqs', 'Nested', 'EmptySeq', 'EmptyMap', 'Tuple', 'NonDictMapping')
 
 
 class HasToDict(object):
@@ -92,6 +92,11 @@ def values_for(cls, rng):
     if cls == 'Nested':
         return [{'a': {'b': [1, {'c': 2}]}}, [{'a': [1, 2]}, 5], [1, [2, [3, [4, [5, [6]]]]]], {'l': [{'m': {'n': [None]}}]},
                 [{'a': 1}, 5, 'x', None]]
+    if cls == 'NonDictMapping':
+        import collections
+        import types
+        return [types.MappingProxyType({'a': 1, 'b': 'x'}), collections.UserDict({'k': [1, 2]}), collections.OrderedDict([('z', 1), ('a', 2)]),
+                collections.ChainMap({'a': 1}, {'b': 2}), {'outer': types.MappingProxyType({'inner': 1})}]
     if cls == 'EmptySeq':
         return [[]]
     if cls == 'EmptyMap':
@@ -116,8 +121,16 @@ def values_for(cls, rng):
 
 
 def jsonable_view(v):
-    """what JSON-native data looks like after a round trip (tuples become lists)"""
-    return json.loads(json.dumps(v))
+    """what JSON-native data looks like after a round trip (tuples become lists, any Mapping becomes an object)"""
+    from collections.abc import Mapping
+
+    def plain(x):
+        if isinstance(x, Mapping):
+            return dict((k, plain(val)) for k, val in x.items())
+        if isinstance(x, (list, tuple)):
+            return [plain(i) for i in x]
+        return x
+    return json.loads(json.dumps(plain(v)))
 
 
 class Holder(object):
